@@ -641,6 +641,83 @@ fn run(ctx: &mut Ctx) {
         }
         ctx.fact("family_d_cases", nd);
     }
+    // family E: large goldens (40 KiB, lines of 64 characters, some of them non-ASCII), written with LF and with CRLF, the
+    // first line 0..=64 characters long so that a CR falls on the last byte before EVERY multiple of 4096 in one of the
+    // shifts. `assert(got)` succeeds exactly for got = the LF text: not for a strict prefix (lost tail, lost final
+    // newline, empty), not for an extension, not for a text that keeps one CRLF, not for one changed character near the
+    // end. In update mode the file afterwards holds `got`.
+    {
+        let mut ne = 0u64;
+        for crlf in [false, true] {
+            for shift in 0..=64usize {
+                for env in [Env::Unset, Env::One] {
+                    ne += 1;
+                    if !ctx.next_is_mine() {
+                        ctx.skip_cases(1);
+                        continue;
+                    }
+                    let root = root.clone();
+                    ctx.case(
+                        || format!("large golden ({} line ends, first line {} characters, 40 KiB); UPDATE_GOLDEN {}; assert for the exact text, prefixes, an extension, one kept CRLF, one changed character", if crlf { "CRLF" } else { "LF" }, shift, env.name()),
+                        move || {
+                            let mut lf = String::new();
+                            lf.push_str(&"s".repeat(shift));
+                            lf.push('\n');
+                            let mut i = 0;
+                            while lf.len() < 40 * 1024 {
+                                i += 1;
+                                lf.push_str(&format!("{:06} {}\n", i, if i % 7 == 0 { "\u{e9}".repeat(28) } else { "x".repeat(56) }));
+                            }
+                            let file_text = if crlf { lf.replace('\n', "\r\n") } else { lf.clone() };
+                            let w = World::new(&root, 0);
+                            let mut gots: Vec<(&str, String, bool)> = vec![("exact", lf.clone(), true), ("lost-final-newline", lf[..lf.len() - 1].to_string(), false), ("first-half", lf[..lf.len() / 2 - (0..4).find(|k| lf.is_char_boundary(lf.len() / 2 - k)).unwrap()].to_string(), false), ("empty", String::new(), false), ("extended", format!("{}x\n", lf), false)];
+                            // one CRLF kept at the line end nearest to 8192 / 16384 (as bytes of the CRLF file)
+                            for b in [8192usize, 16384] {
+                                let cut = lf[..b.min(lf.len() - 1)].rfind('\n').unwrap();
+                                gots.push(("one-crlf-kept", format!("{}\r\n{}", &lf[..cut], &lf[cut + 1..]), false));
+                            }
+                            let mut changed = lf.clone().into_bytes();
+                            let n = changed.len();
+                            changed[n - 3] = b'y';
+                            gots.push(("one-character-changed-near-the-end", String::from_utf8(changed).unwrap(), false));
+                            for (gname, got, equal) in &gots {
+                                std::fs::write(&w.path, file_text.as_bytes()).expect("harness bug: write");
+                                env.apply();
+                                let p = w.path.clone();
+                                let g = match fw::guarded(move || Golden::new(p)) {
+                                    Ok(Ok(g)) => g,
+                                    other => {
+                                        std::env::remove_var(VAR);
+                                        return Outcome::violation("large-golden/new-failed", format!("Golden::new on a readable 40 KiB file: {:?}", other.map(|r| r.map(|_| ()).map_err(|e| e.to_string()))));
+                                    }
+                                };
+                                let ok = fw::guarded(|| g.assert(got)).is_ok();
+                                let after = std::fs::read(&w.path).ok();
+                                std::env::remove_var(VAR);
+                                match env.mode() {
+                                    Mode::NoUpdate => {
+                                        if ok != *equal {
+                                            return Outcome::violation(format!("large-golden/{}/{}", if ok { "accepted-different-content" } else { "rejected-equal-content" }, gname), format!("golden of {} bytes ({}), got = {} ({} bytes): assert {}", file_text.len(), if crlf { "CRLF" } else { "LF" }, gname, got.len(), if ok { "returned" } else { "panicked" }));
+                                        }
+                                        if after.as_deref() != Some(file_text.as_bytes()) {
+                                            return Outcome::violation("large-golden/wrote-without-update", "the golden file changed although UPDATE_GOLDEN is not set");
+                                        }
+                                    }
+                                    _ => {
+                                        if !ok || after.as_deref() != Some(got.as_bytes()) {
+                                            return Outcome::violation(format!("large-golden/update-mode/{}", if ok { "file-differs-from-got" } else { "assert-panicked" }), format!("got = {} ({} bytes)", gname, got.len()));
+                                        }
+                                    }
+                                }
+                            }
+                            Outcome::pass(format!("large-golden/{}/env-{}", if crlf { "crlf" } else { "lf" }, env.name()))
+                        },
+                    );
+                }
+            }
+        }
+        ctx.fact("family_e_cases", ne);
+    }
     ctx.fact("family_a_cases", family_a_cases);
     ctx.fact("family_b_cases", serial - family_a_cases);
     ctx.fact("family_b_depth", depth_b as u64);
